@@ -526,10 +526,16 @@ func runC19(r *mc.Report, e *Env) {
 	c19RunHelper(r, e)
 	c19RunNegotiate(r, e)
 	c19RunConsumers(r, e)
+	c19RunStale(r, e)
 	// the end-to-end part (one offer and one large find-content per pairing over the in-memory network) is added here
 }
 
 func replayC19(r *mc.Report, e *Env, raw json.RawMessage) {
+	var sc c19StaleCase
+	if json.Unmarshal(raw, &sc) == nil && sc.Part == "stale-table-record" {
+		c19Stale(r, sc)
+		return
+	}
 	var c c19Case
 	if err := json.Unmarshal(raw, &c); err != nil {
 		panic(err)
